@@ -8,3 +8,5 @@ import OsyrisProofs.C12
 #print axioms Osyris.C01.C01_leaf_rule
 #print axioms Osyris.C12.C12_flat_rule_is_truncation
 #print axioms Osyris.C12.C12_flat_rule_volume
+#print axioms Osyris.C12.C12_rows
+#print axioms Osyris.C12.C12_rows_tile
